@@ -29,6 +29,7 @@
 #include <openssl/sha.h>
 
 #include "common/session.h"
+#include "common/supervise.h"
 #include "data/chunk_list.h"
 #include "data/hash_chunk.h"
 #include "data/hash_queue.h"
@@ -431,7 +432,7 @@ std::string run_case(Session& S, const std::string& line, uint32_t serial) {
 
 }  // namespace
 
-int main() {
+static int worker_main() {
   std_setup();
   std::unique_ptr<Session> S;
   std::string line;
@@ -447,9 +448,11 @@ int main() {
     } catch (std::exception& e) {
       std::cout << "ERR:other " << e.what() << "\n";
       std::cout.flush();
-      _exit(4);
+      _exit(0);
     }
   }
   S.reset();
   return 0;
 }
+
+int main(int argc, char** argv) { return ltv::supervise(argc, argv, worker_main); }
